@@ -8,7 +8,7 @@ from props import common_prog
 THEOREM_MODULES = ["Hcl.Theorems.C13", "Hcl.Theorems.C11Fuel", "Hcl.Theorems.C14Render", "Hcl.Tie.PinsErrors", "Hcl.Tie.PinsLexer"]
 THEOREMS = {"Hcl.Tie.PinsLexer": ["Tie.PinsLexer.pinLexerNext", "Tie.PinsLexer.pinLexerChooseToken", "Tie.PinsLexer.pinLexerGetWhile", "Tie.PinsLexer.pinLexerInternalNext", "Tie.PinsLexer.pinLexerResolveIdentifier"],
             "Hcl.Theorems.C14Render": ["C14_render_total", "C14_render_ok_iff", "C14_grammar_tokens_ok"],
-            "Hcl.Tie.PinsErrors": ["Tie.PinsErrors.pinFormatForContents", "Tie.PinsErrors.pinFormatTokenList", "Tie.PinsErrors.pinListWithAnd"],
+            "Hcl.Tie.PinsErrors": ["Tie.PinsErrors.pinFormatForContents", "Tie.PinsErrors.pinFormatTokenList", "Tie.PinsErrors.pinListWithAnd", "Tie.PinsErrors.pinFindCloseNames"],
             "Hcl.Theorems.C11Fuel": ["C11_parser_fuel_enough", "C11_parser_fuel_independent"],
             "Hcl.Theorems.C13": ["C13_construction_no_internal_error", "C13_accepted_runs", "Program_new_np", "resolveConstants_np",
                                  "assignmentsToActions_np", "check_np", "GBuild.sort_ne_panic", "C13_lexer_terminates", "C13_lexer_progress", "C13_render_total", "C13_render_total_y86",
